@@ -2,6 +2,41 @@
 """Writes the needs_to_manifest summaries into seeded/*/meta.json and prints the markdown table for DESIGN.md §7.1."""
 import glob, json, os
 NEEDS = {
+ "C01-3": "`&a - b` on UBig with both operands >= 3 words, the same word count and a < b: wrapped value instead of the underflow panic (one ownership form only)",
+ "C01-4": "one operand above 1024 words times an operand of 3..24 words (chunked schoolbook path): wrong product in release, debug_assert in debug",
+ "C02-3": "schoolbook division step whose running remainder's top word equals the divisor's top word while the true quotient word is 2^W - 2 (divisor >= 3 words)",
+ "C02-4": "`0.is_multiple_of(b)` returns false (trailing_zeros shortcut compares None < Some)",
+ "C03-3": "mul/sqr/cubic/equal-exponent add whose exact result sits just below a power of the base (>= 24 leading one bits, >= 7 nines): digit count over-estimated, result rounded to p-1 digits",
+ "C03-4": "odd base, half modes, discarded low part exactly (B^k-1)/2 with k past the f32 pre-filter (k >= 7 in base 3): treated as a tie",
+ "C04-3": "RBig / RBig with a dividend numerator of exactly +1 and denominators sharing a factor: quotient not in lowest terms",
+ "C04-4": "RBig / zero integer and integer / RBig zero: returns +-1/0 instead of panicking (Relaxed forms still panic)",
+ "C05-3": "clone_from onto a negative heap host whose buffer is reused: sign flipped (value != clone())",
+ "C05-4": "RBig/Relaxed cmp with a zero left operand against a non-integer below 1/8: Greater; Relaxed zeros with different denominators not Equal",
+ "C06-3": "f32::encode (normal branch, sticky mask 0x7f): odd 26-bit mantissas reported Exact or rounded as ties",
+ "C06-4": "UBig/IBig::to_f64 of > 128-bit integers m*2^k + d with a small d: Exact instead of Inexact (the value is right)",
+ "C07-3": "formatter: `0` flag together with an explicit alignment and a width: alignment wins, primitive formatting ignores it",
+ "C07-4": "IBig::to_le/be_bytes of a negative value of >= 3 words whose lowest word is zero: carry of the two's complement lost",
+ "C08-3": "`{:.N}` Display of a non-zero |x| < B^-(N+1) under Away/Up/Down: prints 0.00",
+ "C08-4": "conversion to a root base (16->2, 8->2, 9->3, 16->4) of a significand divisible by the target base: unnormalised result, Inexact flag for exact values",
+ "C09-3": "negative IBig above 128 bits >> n for n a multiple of 64 when only the highest shifted-out word is non-zero: floor correction lost",
+ "C09-4": "IBig::trailing_ones of a negative multi-word value whose lowest word is 1: 64 too small",
+ "C10-3": "Round::round_fract in odd bases with the fraction exactly +-(B^p-1)/2 and enough digits (p >= 7 in base 3): treated as a tie",
+ "C10-4": "owned with_precision for significands just below a power of the base (>= 20 leading one bits, >= 7 nines): one digit too many removed, Inexact for exact",
+ "C11-3": "Context::powi: rounded intermediate products whose final rounding happens to be exact come back flagged Exact",
+ "C11-4": "powf in non-binary bases for results of extreme magnitude (B^+-1000 and beyond): guard digits cut, 2-10 ulp off",
+ "C12-3": "`(&a).gcd_ext(b)` with a <= 2 words by reference and b > 2 words by value: s and t exchanged (one of four ownership impls)",
+ "C12-4": "only without the std feature: log2_bounds upper bound too small when the top 16 bits are exactly 0x8000",
+ "C13-3": "Reducer::add / dbl on a multi-word modulus when the sum equals the modulus exactly: returns m instead of 0",
+ "C13-4": "release builds only: multi-word modular subtraction that borrows (the add-back moved inside debug_assert!)",
+ "C14-3": "AbsOrd between a negative FBig/Repr and a UBig when the log2 filter cannot separate them (equal or adjacent): always Less",
+ "C14-4": "NumHash of UBig/IBig with magnitude in [2^127-1, 2^128) (inline double-word fast path), 64-bit words only",
+ "C15-3": "and-not with a borrowed left and an owned right operand, both >= 3 words, right one longer: high words leak, `&x & y` disagrees with `x & y`",
+ "C15-4": "`&a - b` on equal-length heap operands with a < b returns a wrapped value while the five other forms panic",
+ "C18-3": "next_up/next_down/nearest when the search reaches bounds whose denominators add up to exactly the limit: neighbour of order limit-1 returned",
+ "C18-4": "simplest_from_float under Away/Up/Down (and HalfEven in base 10 at low precision): the inclusive end farther from zero is ignored",
+ "C19-3": "serde decoding of an RBig from a stream whose parts share an odd factor (\"6/9\", bytes of a Relaxed): non-canonical RBig",
+ "C19-4": "release builds only: modular mul/sqr of short operands (lengths summing to the modulus length) with product >= m (the subtraction moved inside debug_assert!)",
+
  "C01-1": "release builds only (a borrow propagation was moved inside debug_assert!); Karatsuba/Toom-3 sizes (> 24 words) with a zero word below a split point",
  "C01-2": "heap operand (>= 3 words) times a two-word operand whose product has a zero second-highest word (carry words appended with push_resizing)",
  "C02-1": "divide-and-conquer division (divisor and quotient > 32 words) needing two quotient corrections (~3 % of random inputs of that class)",
